@@ -142,7 +142,14 @@ struct Run : ContBase {
         qlist_obj_t o; memset(&o, 0, sizeof o);
         size_t i = 0;
         errno = poison;
+        bool lookups = s.chance(1, 3);     // read-only calls between the steps: the list stays unmodified
         while (qlist_getnext(inner(), &o, newmem)) {
+            if (lookups && !m.empty() && s.chance(1, 2)) {
+                long gi = s.range(-(long)m.size(), (long)m.size() - 1); size_t gp = gi < 0 ? m.size() + gi : (size_t)gi; size_t gsz = 0;
+                void *p = qlist_getat(inner(), (int)gi, &gsz, false);
+                if (!p || gsz != m[gp].size() || memcmp(p, m[gp].data(), gsz) != 0) c.fail(FUNC, "list:get", "getat(%ld) between two steps of a walk returned the wrong element", gi);
+                (void)qlist_size(inner());
+            }
             if (i >= m.size()) c.fail(FUNC, "list:walk-extra", "walk returned more than %zu elements", m.size());
             if (o.size != m[i].size() || memcmp(o.data, m[i].data(), o.size) != 0) c.fail(FUNC, "list:walk-order", "walk step %zu returned %s, expected %s", i, hexs(o.data, o.size, 12).c_str(), hexs(m[i], 12).c_str());
             see(o.data, o.size);
